@@ -22,3 +22,153 @@ Theorem composed_multi_objective_run :
       forall e, In e (cm_arch m) -> e_vec e = eval_vec d (e_acts e) /\ set_valid d (e_acts e) = true) ms.
 Proof. exact (fun d p i ms Hd => composed_run_ok d Hd p i ms). Qed.
 Print Assumptions composed_multi_objective_run.
+
+(* =====================================================================================================
+   Composition of C01 + C02 + C03 + C04 + C07 for the SINGLE-objective (Kirkpatrick) annealer
+   (ComposeKp.v: Kirkpatrick.iterate instantiated with the catchment model under a limit; proofs in
+   ComposeKpProofs.v; real runs replayed by ComposeKpCorr.check_krun, checked as part of C03).
+
+   Numbers: model values are grid integers (Z, exact rationals underneath: DESIGN 3a); what the explorer
+   sees is binary64 (Coq primitive floats, DESIGN 3b).  The bridge is COMPUTED by the model, not assumed:
+     grid_float k g      = float64(g) / float64(scale k)          what math.RoundFloat leaves for grid value g
+     reported_change k s = (un + ch) - un in binary64              ChangePerPlanningUnitDecisionVariableCommand.Change()
+   and the replay compares both with the floats the Go model reports, on every iteration (assumption A-FLOAT
+   checked per case).  [ki_e] (the value math.Exp returned) and [ki_u] (the uniform draw) are inputs; the
+   argument the code hands to math.Exp is stated in clause (c).
+   ===================================================================================================== *)
+From Coq Require Import Floats.
+From Crem Require Import Kirkpatrick ComposeKp ComposeKpProofs.
+From Crem Require AnnealLoop.
+
+(* what [step_facts d cfg n b x b' dec] says of ONE iteration: n = CoolDown calls so far, b = (explorer fields,
+   model state) before, x = (pick, math.Exp result, draw, cool?), b' = after, dec = the decision *)
+Theorem composed_single_objective_step_reading :
+  forall d cfg n (b : boundary) x (b' : boundary) dec,
+    step_facts d cfg n b x b' dec <->
+    (let k := kc_obj cfg in
+     let m := snd b in
+     let m1 := propose d m (ki_pick x) in
+     let c := reported_change k m1 in
+     let T := st_T (fst b) in
+     (* (a) C03: the state held after the iteration respects the limit *)
+     state_is_valid d (snd b') = true
+     (* (b) C01: every total -- in particular the objective value the explorer reads -- is the valuation of the
+            current action set; the binary64 value the explorer reads is that of the valuation *)
+     /\ (forall k', v_total (var (snd b') k') = canon_total d k' (st_active (snd b')))
+     /\ objective_float k (snd b') = grid_float k (canon_total d k (st_active (snd b')))
+     (* (c) C04: the decision is the Metropolis decision for the reported change, the temperature and the draw *)
+     /\ dec = metropolis_spec (kc_dir cfg) (mkInput (change_is_valid d m1) c (ki_e x) (ki_u x))
+     /\ (change_is_valid d m1 = false -> dec = RevertInvalid)
+     /\ (change_is_valid d m1 = true -> improves (kc_dir cfg) c = true -> dec = AcceptDesirable)
+     /\ (change_is_valid d m1 = true -> improves (kc_dir cfg) c = false ->
+           dec = (if (ki_u x <? ki_e x)%float then AcceptUndesirable else RevertUndesirable)
+           /\ step_exp_arg (kc_dir cfg) (fst b) (mkInput true c (ki_e x) (ki_u x)) = exp_arg T c)
+     (* (d) C02: accepted = the proposed state, moved by exactly the reported grid change; otherwise the previous one *)
+     /\ snd b' = (if accepts dec then accept m1 else revert m1)
+     /\ (forall j, st_active (snd b') j = if accepts dec then flip (st_active m) (ki_pick x) j else st_active m j)
+     /\ (forall k', v_total (var (snd b') k')
+                  = if accepts dec then (v_total (var m k') + cmd_change (v_cmd (var m1 k')))%Z else v_total (var m k'))
+     (* (e) C07: the temperature is T0 * cf^n (binary64, one multiplication per CoolDown) *)
+     /\ T = AnnealLoop.temp_after (kc_cf cfg) (kc_T0 cfg) n
+     /\ st_T (fst b') = AnnealLoop.temp_after (kc_cf cfg) (kc_T0 cfg) (n + cooled x)
+     /\ st_cf (fst b') = kc_cf cfg).
+Proof. exact (fun d cfg n b x b' dec => iff_refl _). Qed.
+Print Assumptions composed_single_objective_step_reading.
+
+(* For every wf data set with a limit attainable at the starting extreme, either configured optimisation direction,
+   each of the six objective variables, every starting temperature and cooling factor, ALL initial picks, and ALL
+   per-iteration picks, math.Exp results, draws and cooling flags, any number of iterations:
+   the state after the initial randomisation respects the limit and carries the valuation of its action set, and
+   EVERY iteration satisfies (a)-(e) above. *)
+Theorem composed_single_objective_run :
+  forall d cfg picks0 inputs s0 tr, wf_dataset d = true ->
+    configured (kc_dir cfg) = true ->
+    state_is_valid d (start_extreme d) = true ->
+    picks_ok d picks0 = true -> kp_inputs_in_range d inputs = true ->
+    ckp_run d cfg picks0 inputs = Some (s0, tr) ->
+    state_is_valid d s0 = true
+    /\ (forall k, v_total (var s0 k) = canon_total d k (st_active s0))
+    /\ length tr = length inputs
+    /\ forall j x, nth_error inputs j = Some x ->
+         exists b' dec, nth_error tr j = Some (b', dec)
+           /\ step_facts d cfg (cooled_count (firstn j inputs))
+                         (boundary_before (init_state (kc_T0 cfg) (kc_cf cfg), s0) tr j) x b' dec.
+Proof. exact (fun d cfg p i s0 tr Hd Hdir => ckp_run_pointwise d Hd cfg Hdir p i s0 tr). Qed.
+Print Assumptions composed_single_objective_run.
+
+(* the same, as a chain (the form the induction proves) *)
+Theorem composed_single_objective_run_chain :
+  forall d cfg picks0 inputs s0 tr, wf_dataset d = true ->
+    configured (kc_dir cfg) = true ->
+    state_is_valid d (start_extreme d) = true ->
+    picks_ok d picks0 = true -> kp_inputs_in_range d inputs = true ->
+    ckp_run d cfg picks0 inputs = Some (s0, tr) ->
+    state_is_valid d s0 = true
+    /\ (forall k, v_total (var s0 k) = canon_total d k (st_active s0))
+    /\ trace_facts d cfg 0 (init_state (kc_T0 cfg) (kc_cf cfg), s0) inputs tr.
+Proof. exact (fun d cfg p i s0 tr Hd Hdir => ckp_run_ok d Hd cfg Hdir p i s0 tr). Qed.
+Print Assumptions composed_single_objective_run_chain.
+
+(* the composed run IS a run of C04's explorer over an abstract model (so every C04 theorem about
+   Kirkpatrick.iterations applies to it) ... *)
+Theorem composed_single_objective_run_is_C04_iterations :
+  forall d cfg inputs b,
+    iterations (kp_ops d (kc_obj cfg)) (kc_dir cfg) b (map kp_pq inputs)
+    = (last (map fst (ckp_iters d cfg b inputs)) b, map snd (ckp_iters d cfg b inputs)).
+Proof. exact ckp_iters_iterations. Qed.
+Print Assumptions composed_single_objective_run_is_C04_iterations.
+
+(* ... and its model states ARE a run of C03's single-objective model Limits.kp_run whose decision inputs are the
+   Metropolis decisions (so C03_single_objective_run applies to it literally) *)
+Theorem composed_single_objective_run_is_C03_kp_run :
+  forall d cfg picks0 inputs s0 tr,
+    ckp_run d cfg picks0 inputs = Some (s0, tr) ->
+    kp_run d picks0 (map (fun xr => (ki_pick (fst xr), accepts (snd (snd xr)))) (combine inputs tr))
+    = Some (s0 :: map (fun r => snd (fst r)) tr).
+Proof. exact ckp_run_refines_kp_run. Qed.
+Print Assumptions composed_single_objective_run_is_C03_kp_run.
+
+(* "improving" read on the grid: whenever the binary64 change has the sign of the grid change it stands for (the
+   computable side condition [sign_faithful], evaluated on every replayed iteration), clause (c) decides on the
+   sign of the GRID change *)
+Theorem composed_single_objective_improving_on_grid :
+  forall dir k c, sign_faithful k c = true ->
+    improves dir (cmd_change_float k c) = improves_grid dir (cmd_change c).
+Proof. exact improves_on_grid. Qed.
+Print Assumptions composed_single_objective_improving_on_grid.
+
+(* non-vacuity: two planning units, a gully action (1000 dollars) and a hill-slope action (250 dollars), implementation
+   cost limited to 1100, minimising sediment from T0 = 10 with cooling factor 1/2.  The randomisation tries the gully
+   action, is refused and stops (nothing active, sediment 32.334).  Then: the hill-slope action improves (-2.000) and is
+   accepted; the gully action would cost 1250 > 1100: invalid, reverted; undoing the hill-slope action worsens by
+   (14.667 + 2) - 14.667 = 2.0000000000000018 in binary64: at T = 2.5 exp(-0.8) = 0.449 <= 0.9: reverted; the same
+   proposal at T = 1.25 with exp(-1.6) = 0.2019 > 0.1: accepted.  Temperatures 5, 2.5, 1.25, 0.625. *)
+Definition exk_d : dataset :=
+  mkData [3; 5]%Z
+    [ mkAction 3 Gully [(OriginalGullySediment, 7 # 2); (ActionedGullySediment, 1 # 2); (ImplementationCostVar, 1000 # 1)];
+      mkAction 5 HillSlope [(HillSlopeErosionOriginalAttribute, 11 # 3); (HillSlopeErosionActionedAttribute, 5 # 3);
+                             (ImplementationCostVar, 250 # 1)] ]
+    (fun _ _ => mkCtx (1 # 5) (9 # 1) (7 # 2) (11 # 3) 0 0) (Some (VIC, 1100 # 1)).
+Definition exk_cfg : kp_cfg := mkKpCfg Minimise VSed 10 0.5.
+Definition exk_inputs : list kp_input :=
+  [mkKpIn 1 0 0 true; mkKpIn 0 0 0 true;
+   mkKpIn 1 0x1.cc1ce4581db83p-2 0x1.ccccccccccccdp-1 true;
+   mkKpIn 1 0x1.9d7bebefb4e0cp-3 0x1.999999999999ap-4 true]%float.
+Example composed_single_objective_nonvacuous :
+  wf_dataset exk_d = true /\ state_is_valid exk_d (start_extreme exk_d) = true
+  /\ configured (kc_dir exk_cfg) = true /\ picks_ok exk_d [0%nat; 1%nat] = true
+  /\ kp_inputs_in_range exk_d exk_inputs = true
+  /\ match ckp_run exk_d exk_cfg [0%nat; 1%nat] exk_inputs with
+     | Some (s0, tr) =>
+         Some (active_list exk_d s0, v_total (st_sed s0),
+               map (fun r => (snd r, active_list exk_d (snd (fst r)), v_total (st_sed (snd (fst r))),
+                              v_total (st_ic (snd (fst r))), st_T (fst (fst r)), st_change (fst (fst r)))) tr)
+     | None => None
+     end
+     = Some ([false; false], 32334%Z,
+             [(AcceptDesirable, [false; true], 30334%Z, 25000%Z, 5, -2);
+              (RevertInvalid, [false; true], 30334%Z, 25000%Z, 2.5, -3);
+              (RevertUndesirable, [false; true], 30334%Z, 25000%Z, 1.25, 0x1.0000000000004p+1);
+              (AcceptUndesirable, [false; false], 32334%Z, 0%Z, 0.625, 0x1.0000000000004p+1)]%float)
+  /\ exp_arg 2.5 0x1.0000000000004p+1 = (-0x1.99999999999a0p-1)%float.
+Proof. vm_compute. repeat split; reflexivity. Qed.
